@@ -39,7 +39,7 @@ def run(chk):
                 break
     # long runs with a quiet late phase (neither M nor z* changes for thousands of iterations): binary64 arg-max check at every step
     longs = []
-    for i in range(6 if thorough else 1):
+    for i in range(8 if thorough else 3):
         side = 1.0
         a = round(rng.uniform(0.2, 0.5), 3)
         objs = [{'kind': 'pwl1d', 'xs': [0.0, a - 0.17, a + 0.23, 1.0], 'vs': [a - 0.17, 0.0, 0.0, 0.77 - a]},      # hinge: a flat basin, uniform refinement inside
@@ -50,6 +50,10 @@ def run(chk):
         if thorough and i >= 3:
             case.update({'n': 2, 'lo': [0.0, 0.0], 'hi': [1.0, 1.0], 'iters': 9000})
             case['objective'] = {'kind': 'cones', 'centers': [[0.5, 0.5]], 'slopes': [0.01], 'offsets': [0.0]}
+        if i >= 1 and not (thorough and i >= 3 and i < 6):      # requests of several iterations at once: every one of them obeys the rule
+            case.update({'batch': rng.choice([2, 5, 16]), 'iters': 1500 if not thorough else 4000})
+            if i % 2 == 0:
+                case.update({'n': 2, 'lo': [0.0, 0.0], 'hi': [1.0, 1.0], 'objective': H.random_objective(rng, 2, kinds=('sin', 'cones', 'quad'), lo=[0.0, 0.0], hi=[1.0, 1.0]), 'iters': 600})
         res = O.guarded(O.c02_long, case)
         chk.evaluations += 1
         if isinstance(res, tuple):
